@@ -281,7 +281,7 @@ func init() {
 		Harness: []string{"control:Verif_C05_relay", "control:Verif_C05_relay_error", "control:Verif_C05_prefetch"},
 		MaxIter: 2000,
 		Level:   "other",
-		LevelText: "The real relay (RelayTCPContextWithRecords -> relayCore.run with its two direction goroutines, context watcher and forceClose, defaultRelayCopyEngine.Copy, tryRelayGatherWrite with TakeRelaySegments / TakeRelayPrefix / CopyRelayRemainder, relayCopyLoop / relayCopyDirect) runs between two model sockets under the engine's schedule exploration (every interleaving of client, upstream, the two copy directions and the watcher at blocking operations; schedules are symbolic inputs). The client side is plain, or wrapped the way handleConn wraps it: prefixedConn with read-ahead bytes, bufioConn after a DNS-detection Peek, or ConnSniffer over a prefixedConn after a failed sniff. Client and upstream each send two segments of symbolic bytes and shut down their sending side; the model sockets either report end of stream on its own or together with their last bytes (as TLS / AEAD streams do). Obligations: each side receives exactly the other's byte stream (read-ahead included, no loss, duplication or reordering); each end of stream is passed on as exactly one write-shutdown and nothing is written after it; the relay finishes without error. A second harness resets the upstream at either write: the relay does not hang, reports the error and closes both connections. A genuine defect was found with this check and repaired (see known_findings.json): the wrappers hid CloseWrite, so the upstream's end of stream reached a client behind a sniffing wrapper only after the 10 s half-close timeout.",
+		LevelText: "The real relay (RelayTCPContextWithRecords -> relayCore.run with its two direction goroutines, context watcher and forceClose, defaultRelayCopyEngine.Copy, tryRelayGatherWrite with TakeRelaySegments / TakeRelayPrefix / CopyRelayRemainder, relayCopyLoop / relayCopyDirect) runs between two model sockets under the engine's schedule exploration (every interleaving of client, upstream, the two copy directions and the watcher at blocking operations; schedules are symbolic inputs). The client side is plain, or wrapped the way handleConn wraps it: prefixedConn with read-ahead bytes, bufioConn after a DNS-detection Peek (with the gather path's read of pending client bytes enabled by letting the model socket count as a TCP socket), or ConnSniffer over a prefixedConn after a failed sniff. Client and upstream each send two segments of symbolic bytes and shut down their sending side; the model sockets either report end of stream on its own or together with their last bytes (as TLS / AEAD streams do). Obligations: each side receives exactly the other's byte stream (read-ahead included, no loss, duplication or reordering); each end of stream is passed on as exactly one write-shutdown and nothing is written after it; the relay finishes without error. A second harness resets the upstream at either write: the relay does not hang, reports the error and closes both connections. A genuine defect was found with this check and repaired (see known_findings.json): the wrappers hid CloseWrite, so the upstream's end of stream reached a client behind a sniffing wrapper only after the 10 s half-close timeout.",
 		LevelNote: "Partial claim. The splice(2) and writev fast paths need real *net.TCPConn file descriptors and are not executed (model sockets take the buffered-loop and gather paths); handleConn's wiring (DNS fast path, prefetch timing, routing, dial) is not executed; the detection-window timing clause is covered for the sniffer only (C06). Trusted: go/ssa, executor and thread model (switches at blocking operations only in this check), z3.",
 		Technique: techniqueText,
 		Explanation: "Bounded schedule exploration of the TCP relay core over model sockets with symbolic payloads.",
